@@ -206,6 +206,7 @@ func checkC05(c *Ctx, r *Report) {
 	// the reply-driven enumeration run during session establishment is bounded by its own
 	// counter, not only by the caller's context (shared with C16): a BMC that always answers
 	// with full chunks cannot keep discovery going
+	checkNilHashGuarded(c, r)
 	checkChunkLoop(c, r)
 	if c.Tier == "thorough" {
 		bceCrossCheck(c, r, e)
@@ -518,4 +519,79 @@ func (c *Ctx) lineHasIndexing(relFile string, line int) bool {
 		}
 	}
 	return found
+}
+
+// checkNilHashGuarded: an exported layer type with a hash.Hash field may be used with that
+// field nil (the session-less connections never set the session wrapper's integrity
+// algorithm, and a forged reply can still carry the authenticated flag). In the layer's
+// decoder and serialiser every method call on a hash read from such a field happens only on
+// paths that found it non-nil — a nil interface method call is a panic like an index out of
+// range.
+func checkNilHashGuarded(c *Ctx, r *Report) {
+	r.Rule("nil-hash-guarded", "in the decoders and serialisers of layer types that carry a hash.Hash field, every method call on that hash is made only on paths that found it non-nil", 2)
+	for _, pkg := range c.ModulePackages() {
+		names := pkg.Types.Scope().Names()
+		sort.Strings(names)
+		for _, nm := range names {
+			tn, ok := pkg.Types.Scope().Lookup(nm).(*types.TypeName)
+			if !ok || !tn.Exported() {
+				continue
+			}
+			nt, ok := tn.Type().(*types.Named)
+			if !ok {
+				continue
+			}
+			st, ok := nt.Underlying().(*types.Struct)
+			if !ok {
+				continue
+			}
+			hashField := ""
+			for i := 0; i < st.NumFields(); i++ {
+				if isHashHash(st.Field(i).Type()) && !st.Field(i).Embedded() {
+					hashField = st.Field(i).Name()
+				}
+			}
+			if hashField == "" {
+				continue
+			}
+			for _, mname := range []string{"DecodeFromBytes", "SerializeTo"} {
+				fn := c.MethodOf(nt, mname)
+				if fn == nil || fn.Blocks == nil || len(fn.Params) == 0 {
+					continue
+				}
+				name := c.FnName(fn)
+				okG, nG := true, 0
+				posG := fn.Pos()
+				complete := enumPaths(fn, 2, 1000000, func(p CPath) {
+					for _, oc := range p.OccsPos() {
+						call, ok := oc.In.(*ssa.Call)
+						if !ok || !call.Call.IsInvoke() || !isHashHash(call.Call.Value.Type()) {
+							continue
+						}
+						v := p.Upto(oc.Seg).ResolveIn(oc.Ctx, call.Call.Value)
+						ld, isLd := v.(*ssa.UnOp)
+						if !isLd || ld.Op != token.MUL {
+							continue
+						}
+						ap := p.AP(ld.X)
+						if ap.Root != ssa.Value(fn.Params[0]) || ap.SelString() != hashField {
+							continue
+						}
+						nG++
+						if p.nilFound(v) != 1 {
+							okG, posG = false, call.Pos()
+						}
+					}
+				})
+				if !complete {
+					r.Unk(name+"|nil hash", fn.Pos(), "too many paths")
+					continue
+				}
+				if nG == 0 {
+					continue
+				}
+				r.Check(okG, name+"|nil "+hashField, posG, "every use of the hash is behind a non-nil test", "a method of "+hashField+" is called on a path that has not found it non-nil: with the field unset (session-less connection) a packet that claims to be authenticated makes this a nil-pointer panic")
+			}
+		}
+	}
 }
